@@ -199,6 +199,13 @@ class C04(Prop):
         for wc in cfg['watchers']:
             if rng.random() < 0.4:
                 wc['hooks'] = gen.gen_hooks(rng)
+            if rng.random() < 0.15:
+                # hooks around signals, stops and reaps: whatever they answer,
+                # no worker may end up alive and unlisted
+                wc.setdefault('hooks', {}).update(gen.gen_hooks(
+                    rng, names=('before_signal', 'after_signal',
+                                'before_stop', 'after_stop', 'before_reap',
+                                'after_reap'), p=0.5, bad_p=0.6))
             if rng.random() < 0.3:
                 wc['opts']['max_retry'] = rng.choice([1, 2, 5])
         if rng.random() < 0.35:
